@@ -323,16 +323,11 @@ theorem failure_propagates (a : DatasetArgs) (q : QueryFacts) (fs : FsFacts) (o 
     | deliverFailed n e h hd => exact absurd (runContainer_ok o n h).1 hne
     | delivered n p h hd => exact absurd (runContainer_ok o n h).1 hne
 
-/-
-Full-strength statement (false of the code, see `failure_class_counterexample`):
-  ∀ a q fs o, FailureClass o (observe a (execute a q fs o))
--/
-/-- **C17.failure_class_partial** — the exception that arrives is the container's own
-(`DockerException` re-raised after logging, any other exception untouched), PROVIDED every output
-chunk decodes as UTF-8 (`AllDecode`, decidable). Missing: with an undecodable chunk the loop raises
-`UnicodeDecodeError` before the stream can report the container's failure. -/
-theorem failure_class_partial (a : DatasetArgs) (q : QueryFacts) (fs : FsFacts) (o : Outcome)
-    (hd : AllDecode o) : FailureClass o (observe a (execute a q fs o)) := by
+/-- **C17.failure_class** — the exception that arrives is the container's own: `DockerException`
+re-raised after logging, any other exception untouched — whatever the container printed (chunks
+are decoded with `errors='replace'`, which cannot raise). -/
+theorem failure_class (a : DatasetArgs) (q : QueryFacts) (fs : FsFacts) (o : Outcome) :
+    FailureClass o (observe a (execute a q fs o)) := by
   have h := execute_shape a q fs o
   generalize execute a q fs o = r at h
   cases h with
@@ -342,7 +337,7 @@ theorem failure_class_partial (a : DatasetArgs) (q : QueryFacts) (fs : FsFacts) 
   | ran hv ht hs u us hp tl r htl =>
     obtain ⟨_, _, _, _, _, _, _, hok, herr⟩ := observe_ran a (mkCall (mkDataset a fs) q u.parent) tl r htl
     intro _ hne
-    obtain ⟨n', e', hr', hcls⟩ := runContainer_failure_class o hne hd
+    obtain ⟨n', e', hr', hcls, _⟩ := runContainer_failure o hne
     cases htl with
     | streamFailed n e h =>
       rw [hr'] at h
@@ -373,18 +368,12 @@ theorem missing_result (a : DatasetArgs) (q : QueryFacts) (fs : FsFacts) (o : Ou
 
 /-! ## success -/
 
-/-
-Full-strength statement (false of the code, see `success_returns_counterexample`):
-  ∀ a q fs o, SuccessReturns a q fs o (observe a (execute a q fs o))
--/
-/-- **C17.success_returns_partial** — valid files in one directory, a query that translates, a
-container that ends well and leaves its result, an existing output directory: the caller gets
-exactly `[<output directory or temp root>/<result file>]` and that file is the copy of the
-container's result — PROVIDED every output chunk decodes as UTF-8 (`AllDecode`, decidable).
-Missing: undecodable output makes `stream_content.decode()` raise although the container
-succeeded. -/
-theorem success_returns_partial (a : DatasetArgs) (q : QueryFacts) (fs : FsFacts) (o : Outcome)
-    (hd : AllDecode o) : SuccessReturns a q fs o (observe a (execute a q fs o)) := by
+/-- **C17.success_returns** — valid files in one directory, a query that translates, a container
+that ends well and leaves its result, an existing output directory: the caller gets exactly
+`[<output directory or temp root>/<result file>]` and that file is the copy of the container's
+result — whatever the container printed. -/
+theorem success_returns (a : DatasetArgs) (q : QueryFacts) (fs : FsFacts) (o : Outcome) :
+    SuccessReturns a q fs o (observe a (execute a q fs o)) := by
   intro hrun hend hres hout
   obtain ⟨hv, hs, ht⟩ := hrun
   have h := execute_shape a q fs o
@@ -395,7 +384,7 @@ theorem success_returns_partial (a : DatasetArgs) (q : QueryFacts) (fs : FsFacts
   | differentDirs hv' ht' hs' ls => exact absurd hs hs'
   | ran hv' ht' hs' u us hp tl r htl =>
     obtain ⟨_, _, _, _, _, _, _, hok, herr⟩ := observe_ran a (mkCall (mkDataset a fs) q u.parent) tl r htl
-    have hrc := runContainer_success o hend hd
+    have hrc := runContainer_success o hend
     have hdel : deliver (mkDataset a fs) fs o = .ok ((mkDataset a fs).outDir.child resultFileName) := by
       simp [deliver, hres, hout]
     cases htl with
@@ -426,7 +415,7 @@ theorem returns_only_on_success (a : DatasetArgs) (q : QueryFacts) (fs : FsFacts
     | streamFailed n e h => rw [(herr e rfl).2.1] at hret; exact absurd rfl hret
     | deliverFailed n e h hd => rw [(herr e rfl).2.1] at hret; exact absurd rfl hret
     | delivered n p h hd =>
-      obtain ⟨hend, _, _⟩ := runContainer_ok o n h
+      obtain ⟨hend, _⟩ := runContainer_ok o n h
       have hres : o.resultPresent = true := by
         cases hr : o.resultPresent with
         | true => rfl
@@ -467,16 +456,9 @@ theorem result_is_plan_then_finish (a : DatasetArgs) (q : QueryFacts) (fs : FsFa
             cases u
             cases hd : deliver (mkDataset a fs) fs o <;> rfl
 
-theorem runContainer_fst (o : Outcome) (hd : AllDecode o) :
-    (runContainer o).1 = if o.atCall = true ∧ o.ending ≠ .success then 0 else o.chunks.length := by
-  unfold runContainer
-  have hc := consume_all o.chunks hd
-  cases he : o.ending <;> cases ha : o.atCall <;> simp [endingErr, hc]
-
-/-- **C17.pulled_count** — with decodable output the whole stream is read before anything else
-happens: all `k` chunks when the container fails after chunk `k` (or succeeds), none when
-`docker.run` itself raises. -/
-theorem pulled_count (a : DatasetArgs) (q : QueryFacts) (fs : FsFacts) (o : Outcome) (hd : AllDecode o)
+/-- **C17.pulled_count** — the whole stream is read before anything else happens: all `k` chunks
+when the container fails after chunk `k` (or succeeds), none when `docker.run` itself raises. -/
+theorem pulled_count (a : DatasetArgs) (q : QueryFacts) (fs : FsFacts) (o : Outcome)
     (hcall : (observe a (execute a q fs o)).calls ≠ []) :
     (observe a (execute a q fs o)).pulled =
       if o.atCall = true ∧ o.ending ≠ .success then 0 else o.chunks.length := by
@@ -488,53 +470,26 @@ theorem pulled_count (a : DatasetArgs) (q : QueryFacts) (fs : FsFacts) (o : Outc
   | differentDirs hv ht hs ls => simp [observe, callsOf] at hcall
   | ran hv ht hs u us hp tl r htl =>
     obtain ⟨_, _, _, _, _, _, h7, _⟩ := observe_ran a (mkCall (mkDataset a fs) q u.parent) tl r htl
-    rw [h7, ← runContainer_fst o hd]
+    rw [h7, ← runContainer_fst o]
     cases htl with
     | streamFailed n e h => simp [pulledOf, h]
     | deliverFailed n e h hd' => simp [pulledOf, h]
     | delivered n p h hd' => simp [pulledOf, h]
 
-theorem consume_not_all (cs : List Chunk) (h : ¬ ∀ c ∈ cs, c.decodes = true) : (consume cs).2 = false := by
-  cases hc : consume cs with
-  | mk n ok =>
-    cases ok with
-    | false => rfl
-    | true => exact absurd (consume_ok cs n hc).1 h
-
-/-- **C17.undecodable_raises** — the defect exclusion is exact: whenever a container was started,
-its output has a chunk that is not UTF-8, and `docker.run` did not itself raise, the caller gets
-`UnicodeDecodeError` — whatever else the container did (so on this class `success_returns` fails
-for *every* otherwise successful run, not only for the listed literal). -/
-theorem undecodable_raises (a : DatasetArgs) (q : QueryFacts) (fs : FsFacts) (o : Outcome)
-    (hnd : ¬ AllDecode o) (hnc : ¬ (o.atCall = true ∧ o.ending ≠ .success))
-    (hcall : (observe a (execute a q fs o)).calls ≠ []) :
-    (observe a (execute a q fs o)).err = some "UnicodeDecodeError" := by
-  have hrc : ∃ n, runContainer o = (n, .error .decode) := by
-    unfold runContainer
-    have h2 := consume_not_all o.chunks hnd
-    cases hc : consume o.chunks with
-    | mk n ok =>
-      rw [hc] at h2
-      simp only at h2
-      subst h2
-      cases he : o.ending <;> cases ha : o.atCall <;> simp_all [endingErr]
-  obtain ⟨n0, hrc⟩ := hrc
-  have h := execute_shape a q fs o
-  generalize execute a q fs o = r at h hcall
-  cases h with
-  | refused e hv hc => simp [observe, callsOf] at hcall
-  | untranslatable hv ht => simp [observe, callsOf] at hcall
-  | differentDirs hv ht hs ls => simp [observe, callsOf] at hcall
-  | ran hv ht hs u us hp tl r htl =>
-    obtain ⟨_, _, _, _, _, _, _, _, herr⟩ := observe_ran a (mkCall (mkDataset a fs) q u.parent) tl r htl
-    cases htl with
-    | streamFailed n e h =>
-      rw [hrc] at h
-      simp only [Prod.mk.injEq, Except.error.injEq] at h
-      obtain ⟨_, rfl⟩ := h
-      exact (herr _ rfl).1
-    | deliverFailed n e h hd' => rw [hrc] at h; simp at h
-    | delivered n p h hd' => rw [hrc] at h; simp at h
+/-- **C17.output_content_irrelevant** — what the container prints never changes what the caller
+gets: two outcomes with the same number of chunks, the same ending and the same result file lead
+to the same events and the same result, whatever bytes the chunks hold (valid UTF-8 or not, on
+stdout or stderr). This is the regression statement for the repaired `UnicodeDecodeError`. -/
+theorem output_content_irrelevant (a : DatasetArgs) (q : QueryFacts) (fs : FsFacts) (o o' : Outcome)
+    (hl : o.chunks.length = o'.chunks.length) (he : o.ending = o'.ending) (ha : o.atCall = o'.atCall)
+    (hr : o.resultPresent = o'.resultPresent) : execute a q fs o = execute a q fs o' := by
+  have h1 : runContainer o = runContainer o' := by unfold runContainer; rw [hl, he, ha]
+  have h2 : ∀ ds, deliver ds fs o = deliver ds fs o' := by intro ds; unfold deliver; rw [hr]
+  have h3 : ∀ ds, body ds q fs o = body ds q fs o' := by intro ds; unfold body; simp only [h1, h2]
+  unfold execute
+  cases construct a fs with
+  | error e => rfl
+  | ok ds => simp only [h3]
 
 /-! ## the temporary directory and the order of the steps -/
 
@@ -581,18 +536,16 @@ theorem machine (a : DatasetArgs) (q : QueryFacts) (fs : FsFacts) (o : Outcome) 
 
 /-! ## everything together -/
 
-/-- **C17.spec_partial** — the whole specification holds of every execution, under decidable
-hypotheses of two kinds: the backend row is sane (main script in its package, cache mount points
-distinct — both proved of the generated table) and every output chunk decodes (defect exclusion:
-`success_returns_counterexample`). Only the clauses `success_returns` and `failure_class` use the
-latter. -/
-theorem spec_partial (a : DatasetArgs) (q : QueryFacts) (fs : FsFacts) (o : Outcome)
-    (hrow : a.row.runner ∈ a.row.fileNames) (hm : RowMounts a.row) (hd : AllDecode o) :
+/-- **C17.spec_holds** — the whole specification holds of every execution. The two hypotheses are
+decidable sanity conditions on the backend row (main script in its package, cache mount points
+distinct), both proved of the generated table (`generated_backends_wellformed`, `spec_generated`). -/
+theorem spec_holds (a : DatasetArgs) (q : QueryFacts) (fs : FsFacts) (o : Outcome)
+    (hrow : a.row.runner ∈ a.row.fileNames) (hm : RowMounts a.row) :
     Spec a q fs o (observe a (execute a q fs o)) :=
   ⟨validate_first a q fs o, filelist a q fs o, image a q fs o, volumes a q fs o hm,
    call_exactly_when_runnable a q fs o hrow, failure_propagates a q fs o,
-   fun hd' => failure_class_partial a q fs o hd', missing_result a q fs o,
-   success_returns_partial a q fs o hd, returns_only_on_success a q fs o, (tempdir_released a q fs o).1⟩
+   failure_class a q fs o, missing_result a q fs o,
+   success_returns a q fs o, returns_only_on_success a q fs o, (tempdir_released a q fs o).1⟩
 
 /-! ## the generated table -/
 
@@ -611,12 +564,12 @@ theorem generated_backends_wellformed :
        ("cms_miniaod", "CMSRun2miniAODDataset", "cms_miniaod_executor")] ∧
     ∀ r ∈ backends, RowOk r := by decide
 
-/-- the specification for the generated backends (corollary of `spec_partial`) -/
+/-- **C17.spec_generated** — the specification, unconditionally, for the three real backends. -/
 theorem spec_generated (a : DatasetArgs) (q : QueryFacts) (fs : FsFacts) (o : Outcome)
-    (ha : a.row ∈ backends) (hd : AllDecode o) : Spec a q fs o (observe a (execute a q fs o)) :=
-  spec_partial a q fs o (generated_backends_wellformed.2 a.row ha).1 (generated_backends_wellformed.2 a.row ha).2.1 hd
+    (ha : a.row ∈ backends) : Spec a q fs o (observe a (execute a q fs o)) :=
+  spec_holds a q fs o (generated_backends_wellformed.2 a.row ha).1 (generated_backends_wellformed.2 a.row ha).2.1
 
-/-! ## counterexamples and non-vacuity (literals) -/
+/-! ## non-vacuity (literals) -/
 
 def exRow : BackendRow :=
   { key := "ex", datasetClass := "ExDataset", defaultImage := "ex/image", defaultTag := "1.0",
@@ -629,7 +582,7 @@ def exArgs : DatasetArgs :=
 def exFs : FsFacts :=
   { existing := [parsePath "/d/a.root", parsePath "/d/b.root", parsePath "/e/c.root"], tempRoot := "/tmp", outDirExists := true }
 def exQ : QueryFacts := { mds := [.other, .docker (some "inner:1"), .docker (some "outer:2")], translates := true }
-/-- two decodable chunks ("ok\n" on stdout, "é" on stderr), success, result written -/
+/-- two chunks ("ok\n" on stdout, "é" on stderr), success, result written -/
 def exGood : Outcome :=
   { chunks := [⟨true, [111, 107, 10]⟩, ⟨false, [0xC3, 0xA9]⟩], ending := .success, atCall := false, resultPresent := true }
 /-- the container prints `caf\xe9\n` (Latin-1, not UTF-8), ends well and leaves its result -/
@@ -638,24 +591,13 @@ def exLatin1 : Outcome :=
 /-- the same output, but the container then fails -/
 def exLatin1Fail : Outcome := { exLatin1 with ending := .dockerError }
 
-/-- **C17.success_returns_counterexample** — the full-strength success clause is FALSE of the code:
-runnable inputs, a container that succeeds and leaves its result, an existing output directory —
-but one chunk of its output is not UTF-8, and the caller gets `UnicodeDecodeError` instead of the
-result (replayed on the real code every run: known finding). -/
-theorem success_returns_counterexample :
-    Runnable exArgs exQ exFs ∧ exLatin1.ending = .success ∧ exLatin1.resultPresent = true ∧
-    (observe exArgs (execute exArgs exQ exFs exLatin1)).err = some "UnicodeDecodeError" ∧
-    ¬ SuccessReturns exArgs exQ exFs exLatin1 (observe exArgs (execute exArgs exQ exFs exLatin1)) := by decide
+-- the two inputs of the repaired defect: undecodable output no longer changes anything
+example : (observe exArgs (execute exArgs exQ exFs exLatin1)).returned = ["/out/ANALYSIS.root"] ∧
+    (observe exArgs (execute exArgs exQ exFs exLatin1)).err = none := by decide
+example : (observe exArgs (execute exArgs exQ exFs exLatin1Fail)).err = some "DockerException" := by decide
 
-/-- **C17.failure_class_counterexample** — with undecodable output a failing container's
-`DockerException` never reaches the caller; `UnicodeDecodeError` does (still an error: clause
-`failure_propagates` holds). -/
-theorem failure_class_counterexample :
-    ¬ FailureClass exLatin1Fail (observe exArgs (execute exArgs exQ exFs exLatin1Fail)) ∧
-    FailurePropagates exLatin1Fail (observe exArgs (execute exArgs exQ exFs exLatin1Fail)) := by decide
-
--- non-vacuity: the hypotheses of the partial theorems are satisfiable and the success path is real
-example : exRow.runner ∈ exRow.fileNames ∧ RowMounts exRow ∧ AllDecode exGood ∧ Runnable exArgs exQ exFs := by decide
+-- non-vacuity: the row hypotheses are satisfiable and the success path is real
+example : exRow.runner ∈ exRow.fileNames ∧ RowMounts exRow ∧ Runnable exArgs exQ exFs := by decide
 example : (observe exArgs (execute exArgs exQ exFs exGood)).returned = ["/out/ANALYSIS.root"] := by decide
 example : ((observe exArgs (execute exArgs exQ exFs exGood)).calls.map (·.image)) = ["inner:1"] := by decide
 example : (observe exArgs (execute exArgs exQ exFs exGood)).seenFilelist = some "/data/a.root\n/data/b.root\n" := by decide
